@@ -19,6 +19,7 @@ def main():
     ap.add_argument('pid')
     ap.add_argument('--tier', default=os.environ.get('VERIF_TIER') or 'quick', choices=['quick', 'thorough'])
     ap.add_argument('--replay', default=None)
+    ap.add_argument('--pin', action='store_true', help='developer action: record the failing inputs of listed findings')
     a = ap.parse_args()
     pid = a.pid.upper()
     try:
@@ -28,11 +29,14 @@ def main():
         print('no check for %s' % pid)
         sys.exit(2)
     ctx = Ctx(pid, a.tier, LEVELS.get(pid, 'model_checking'))
+    ctx.pin_mode = a.pin
     try:
         if a.replay:
             rc = mod.replay(ctx, a.replay)
         else:
             rc = mod.run(ctx)
+            if a.pin:
+                ctx.write_pins()
     except MachineryError as e:
         print('MACHINERY-ERROR: %s' % e)
         sys.exit(2)
